@@ -44,7 +44,7 @@ ASSUMPTIONS = [
     "only applied to canonical shapes and clear near-misses (no verdict on double spaces, tabs inside HTTP lines)",
     "TLS is a stub: a ClientHello is a fake record starting with 0x16",
 ]
-PROBES_REQUIRED = ["first_byte_alone", "header_block_segmented", "list_permuted", "tls_wrapped",
+PROBES_REQUIRED = ["reconfigured_live", "first_byte_alone", "header_block_segmented", "list_permuted", "tls_wrapped",
                    "byte_0x16_without_context", "wap_autodetected"]
 
 SHIPPED = ["wap.WAPProtocol", "gemini.GeminiProtocol", "http.HTTPProtocol", "http.HTTPSProtocol",
@@ -209,9 +209,23 @@ def gen(seed, index, tier):
     for _ in range(n):
         label, line, tls, hv = rng.choice(base)
         conns.append(_conn(rng, label, line, tls, hv))
-    return {"protocols": plist, "variant": variant, "context": ctx, "conns": conns,
-            "servertype": rng.choice(["ThreadingTCPServer", "ForkingTCPServer"]),
-            "sched_seed": rng.randrange(1 << 30)}
+    sc = {"protocols": plist, "variant": variant, "context": ctx, "conns": conns,
+          "servertype": rng.choice(["ThreadingTCPServer", "ForkingTCPServer"]),
+          "sched_seed": rng.randrange(1 << 30)}
+    if rng.random() < 0.3:
+        # the protocols option of the live configuration object is replaced between two connections (an embedding
+        # program, an admin hook): every later connection is judged by the list configured when it arrives
+        at = rng.randrange(1, n)
+        if rng.random() < 0.6:
+            nl = list(SHIPPED)
+            rng.shuffle(nl)
+            nv = "permuted"
+        else:
+            keep = set(rng.sample(SHIPPED, rng.randrange(3, len(SHIPPED))))
+            nl = [p for p in SHIPPED if p in keep]
+            nv = "sublist"
+        sc["reconf"] = {str(at): {"protocols": nl, "variant": nv}}
+    return sc
 
 
 def SWEEP(tier):
@@ -264,7 +278,15 @@ def execute(sc, tape=None):
             # the list actually in effect (the shipped one is read from the repository's conf file)
             inplist = run.config.get("protocols.ProtocolMultiplexer", "protocols")
             classes_in_list = re.findall(r"\.(\w+)", inplist)
+            cur_variant = sc["variant"]
             for i, cn in enumerate(sc["conns"]):
+                rc = (sc.get("reconf") or {}).get(str(i))
+                if rc:
+                    run.config.set("protocols.ProtocolMultiplexer", "protocols", "[" + ", ".join(rc["protocols"]) + "]")
+                    classes_in_list = [p.split(".")[1] for p in rc["protocols"]]
+                    cur_variant = rc["variant"]
+                    seen = {}
+                    counters["reconfigured_live"] = counters.get("reconfigured_live", 0) + 1
                 raw = cn["raw"].encode("latin-1")
                 npc = len(run.protocol_choices)
                 nhe = len(run.handle_errors)
@@ -283,7 +305,7 @@ def execute(sc, tape=None):
                     counters["header_block_segmented"] = counters.get("header_block_segmented", 0) + 1
                 if wrapped:
                     counters["tls_wrapped"] = counters.get("tls_wrapped", 0) + 1
-                sig = {"label": cn["label"], "variant": sc["variant"]}
+                sig = {"label": cn["label"], "variant": cur_variant}
                 if cn["delays"] and cn["delays"][0] > 60.0:
                     # nothing arrived within the timeout: the connection is over before it began - no TLS
                     # session, no protocol, no answer (in particular no plaintext answer to a late TLS hello)
@@ -335,7 +357,7 @@ def execute(sc, tape=None):
                                 want_line[:60], seen_line[:60], cn["segments"])}
                     break
                 # (4) totality / no exception
-                shipped_classes = sc["variant"] != "sublist"
+                shipped_classes = cur_variant != "sublist"
                 if cls is None or str(cls).startswith("EXC:"):
                     if shipped_classes or str(cls).startswith("EXC:"):
                         viol = {"oracle": "every-line-claimed",
@@ -383,7 +405,7 @@ def execute(sc, tape=None):
                         break
                     if want == "WAPProtocol" and not cn["line"].split(" ")[1].startswith("/wap"):
                         counters["wap_autodetected"] = counters.get("wap_autodetected", 0) + 1
-                shapes.add((cn["label"], wrapped, cn["hv"], sc["variant"], cls))
+                shapes.add((cn["label"], wrapped, cn["hv"], cur_variant, cls))
             if sc["variant"] != "shipped":
                 counters["list_permuted"] = 1
             run.shutdown()
@@ -404,3 +426,5 @@ def shrink(sc):
             yield dict(sc, conns=sc["conns"][:i] + [dict(cn, segments=[], delays=[])] + sc["conns"][i + 1:])
     if sc["servertype"] != "ThreadingTCPServer":
         yield dict(sc, servertype="ThreadingTCPServer")
+    if sc.get("reconf"):
+        yield {k: v for k, v in sc.items() if k != "reconf"}
